@@ -371,4 +371,183 @@ theorem read_tle_from_mmam_xml_file_eq {XmlElem XmlTree : Type} (parse : Str →
         | ok b => simp
     · simp only [bind_assoc, ok_bind, List.nil_append]
 
+/-! ### entry by entry: the model's `reread` (C10) -/
+
+theorem firstTle_congr (c1 c2 : Cfg) (hp : c1.platform = c2.platform) (hr : c1.reg c1.platform = c2.reg c2.platform)
+    (hd : c1.dummy = c2.dummy) : ∀ lines : List Line, firstTle c1 lines = firstTle c2 lines
+  | [] => rfl
+  | l0 :: rest => by
+    simp only [firstTle, decodeLines_congr c1 c2 hp hr hd true l0 rest, firstTle_congr c1 c2 hp hr hd rest]
+
+theorem mapM_congr {β γ : Type} (f g : β → M γ) : ∀ xs : List β, (∀ x ∈ xs, f x = g x) → xs.mapM f = xs.mapM g
+  | [], _ => rfl
+  | x :: xs, h => by
+    rw [List.mapM_cons, List.mapM_cons, h x (by simp), mapM_congr f g xs (fun y hy => h y (by simp [hy]))]
+
+/-- what `Tle("", tle_file=io.StringIO(entry))` does after the model's re-reading `o` of the entry -/
+def afterRead (ep : Str → F → M T) (fl : Str → M F) (it : Str → M Int) (tf : FileArg IO) (o : ReadOutcome) :
+    M (Tle.Self F IO T) :=
+  readResult (initSelf [] tf none none) o >>= fun s =>
+    Tle._checksum s >>= fun _ => Tle._parse_tle (float_ := fl) (epoch_of_year_and_day := ep) (int_ := it) s
+
+/-- **one entry (C10).**  The stream `io.StringIO(a + "\n" + b)` is the one source (`hgu`), it yields the lines the model
+    says (`hopen`; ASCII, no inner line break): `Tle("", tle_file=...)` reads what the model's `reread (a, b)` reads, then
+    runs `_checksum` and `_parse_tle` on it -/
+theorem initEntry_reread (uo : FileArg IO → FnRef → M (Iter Line)) (sat : Dict Str Str) (hsat : dictGet? sat [] = none)
+    (gu : FileArg IO → M (List (FileArg IO) × FnRef)) (ep : Str → F → M T) (fl : Str → M F) (it : Str → M Int)
+    (sio : Str → IO) (ab : Line × Line) (url : FileArg IO)
+    (hgu : gu (FileArg.io (sio (merged ab))) = Except.ok ([url], FnRef._dummy_open_stringio))
+    (hopen : uo url FnRef._dummy_open_stringio = Except.ok (stringIOLines2 ab.1 ab.2))
+    (ha : AsciiAll (stringIOLines2 ab.1 ab.2)) (hn : ∀ l ∈ stringIOLines2 ab.1 ab.2, '\n' ∉ Text.strip l) :
+    initEntry ep fl (_get_first_tle (uri_open := uo) (SATELLITES := sat) (decode_ := fun (l : Line) => (Except.ok l : M Str)))
+        gu it sio (merged ab) =
+      afterRead ep fl it (FileArg.io (sio (merged ab))) (reread ab) := by
+  unfold initEntry afterRead
+  rw [init_order]
+  have hpl : (initSelf (F := F) (T := T) [] (FileArg.io (sio (merged ab))) none none)._platform = [] := by
+    show Py.upper (Py.strip ([] : Str)) = []
+    decide
+  rw [read_tle_eq_readTle gu uo sat _ url FnRef._dummy_open_stringio _ (Or.inl rfl) hgu hopen ha hn, hpl]
+  have hc : readTle (cfgOf sat [] (FnRef._dummy_open_stringio == FnRef._dummy_open_stringio)) (stringIOLines2 ab.1 ab.2) =
+      reread ab := by
+    unfold reread readTle
+    rw [firstTle_congr (cfgOf sat [] (FnRef._dummy_open_stringio == FnRef._dummy_open_stringio))
+      { platform := [], reg := fun _ => none, dummy := true } rfl hsat rfl]
+  rw [hc]
+
+/-- **`_parse_tles_for_downloader` (C10), entry by entry.**  The scan delivers `es`; for each of them the stream is the one
+    source and yields the lines the model says: the reader re-reads every entry as the model's `reread` does, in order -/
+theorem parse_tles_reread (uo : FileArg IO → FnRef → M (Iter Line)) (sat : Dict Str Str) (f : FnRef)
+    (hsat : dictGet? sat [] = none) (us : List (FileArg IO × List Line))
+    (hus : ∀ p ∈ us, uo p.1 f = Except.ok p.2 ∧ AsciiAll p.2)
+    (gu : FileArg IO → M (List (FileArg IO) × FnRef)) (ep : Str → F → M T) (fl : Str → M F) (it : Str → M Int)
+    (sio : Str → IO) (es : List (Line × Line))
+    (hscan : allTlesSources (f == FnRef._dummy_open_stringio) (us.map (·.2)) = .ok es)
+    (hes : ∀ ab ∈ es, ∃ url, gu (FileArg.io (sio (merged ab))) = Except.ok ([url], FnRef._dummy_open_stringio) ∧
+      uo url FnRef._dummy_open_stringio = Except.ok (stringIOLines2 ab.1 ab.2) ∧
+      AsciiAll (stringIOLines2 ab.1 ab.2) ∧ ∀ l ∈ stringIOLines2 ab.1 ab.2, '\n' ∉ Text.strip l) :
+    _parse_tles_for_downloader (SATELLITES := sat) (decode_ := fun (l : Line) => (Except.ok l : M Str))
+        (epoch_of_year_and_day := ep) (float_ := fl)
+        (get_first_tle := _get_first_tle (uri_open := uo) (SATELLITES := sat) (decode_ := fun (l : Line) => (Except.ok l : M Str)))
+        (get_uris_and_open_func := gu) (int_ := it) (io_StringIO := sio) (uri_open := uo) (us.map (·.1)) f =
+      es.mapM fun ab => afterRead ep fl it (FileArg.io (sio (merged ab))) (reread ab) := by
+  rw [parse_tles_collection uo sat f hsat us hus, hscan]
+  simp only [outResult, ok_bind, List.mapM_map]
+  apply mapM_congr
+  intro ab hab
+  obtain ⟨url, h1, h2, h3, h4⟩ := hes ab hab
+  exact initEntry_reread uo sat hsat gu ep fl it sio ab url h1 h2 h3 h4
+
+/-! ### the admin messages: the model's `xmlBulk` -/
+
+theorem splitChar_cons {sep : Char} : ∀ {a : List Char} (rest : List Char), sep ∉ a →
+    Py.splitChar sep (a ++ sep :: rest) = a :: Py.splitChar sep rest
+  | [], rest, _ => by simp [Py.splitChar]
+  | c :: cs, rest, ha => by
+    have hc : c ≠ sep := fun e => ha (by simp [e])
+    have := splitChar_cons (sep := sep) (a := cs) rest (fun hm => ha (by simp [hm]))
+    simp [Py.splitChar, hc, this]
+
+/-- `"\n".join(ls).split("\n")` gives the lines back when none holds a line break -/
+theorem splitChar_join : ∀ (ls : List Str), ls ≠ [] → (∀ l ∈ ls, '\n' ∉ l) →
+    Py.splitChar '\n' (Py.join ['\n'] ls) = ls
+  | [], h, _ => absurd rfl h
+  | [x], _, hn => by simp [Py.join, splitChar_no_sep (hn x (by simp))]
+  | x :: y :: r, _, hn => by
+    rw [Py.join]
+    simp only [List.append_assoc, List.singleton_append]
+    rw [splitChar_cons _ (hn x (by simp)), splitChar_join (y :: r) (by simp) (fun l hl => hn l (by simp [hl]))]
+
+theorem chunks2_pairs : ∀ ps : List (Line × Line), chunks2 (ps.flatMap fun p => [p.1, p.2]) = ps.map fun p => [some p.1, some p.2]
+  | [] => rfl
+  | p :: ps => by simp [chunks2, chunks2_pairs ps]
+
+/-- **one admin-message file (C10).**  The file's `<line-1>` / `<line-2>` texts are the pairs `ps` (at least one, none with
+    a line break): the reader re-reads each pair through `Tle("", tle_file=io.StringIO(a + "\n" + b))`, in order — the
+    entries of the model's `xmlBulk ps = ps.map reread` -/
+theorem xmlFile_pairs (rx : Str → M Str) (initE : Str → M (Tle.Self F IO T)) (fname : Str) (ps : List (Line × Line))
+    (hne : ps ≠ []) (hnl : ∀ p ∈ ps, '\n' ∉ p.1 ∧ '\n' ∉ p.2)
+    (hrx : rx fname = Except.ok (Py.join ['\n'] (ps.flatMap fun p => [p.1, p.2]))) :
+    xmlFile rx chunks2 initE fname = ps.mapM fun p => initE (merged p) := by
+  unfold xmlFile
+  have hls : (ps.flatMap fun p => [p.1, p.2]) ≠ [] := by
+    cases ps with
+    | nil => exact absurd rfl hne
+    | cons p ps => simp
+  have hnn : ∀ l ∈ (ps.flatMap fun p => [p.1, p.2]), '\n' ∉ l := by
+    intro l hl
+    obtain ⟨p, hp, hl⟩ := List.mem_flatMap.mp hl
+    rcases List.mem_cons.mp hl with h | h
+    · rw [h]; exact (hnl p hp).1
+    · have : l = p.2 := by simpa using h
+      rw [this]; exact (hnl p hp).2
+  have htext : (Py.join ['\n'] (ps.flatMap fun p => [p.1, p.2])).isEmpty = false := by
+    cases ps with
+    | nil => exact absurd rfl hne
+    | cons p ps =>
+      cases hps : ps.flatMap (fun p => [p.1, p.2]) with
+      | nil => simp [Py.join, hps]
+      | cons q qs => simp [Py.join, hps]
+  simp only [hrx, ok_bind, htext, Bool.false_eq_true, if_false, splitChar_join _ hls hnn, chunks2_pairs, List.mapM_map]
+  apply mapM_congr
+  intro p _
+  simp [Py.joinOpt, Py.join, merged]
+
+/-- the outcomes the reader goes through for a file are the model's `xmlBulk` -/
+theorem xmlBulk_eq (ps : List (Line × Line)) : xmlBulk ps = ps.map reread := rfl
+
+/-- **`Downloader.read_tle_files()` (C10).**  The configured paths name the files `us` (with their lines); the scan of
+    these files delivers `es`: the method returns what re-reading every entry as the model's `reread` gives (then
+    `_checksum`, `_parse_tle`), in order — or the first exception -/
+theorem read_tle_files_reread {Config : Type} (uo : FileArg IO → FnRef → M (Iter Line)) (sat : Dict Str Str)
+    (hsat : dictGet? sat [] = none) (us : List (FileArg IO × List Line))
+    (hus : ∀ p ∈ us, uo p.1 FnRef.open_py = Except.ok p.2 ∧ AsciiAll p.2)
+    (gu : FileArg IO → M (List (FileArg IO) × FnRef)) (ep : Str → F → M T) (fl : Str → M F) (it : Str → M Int)
+    (sio : Str → IO) (glob : Str → List Str) (ex : Str → Bool) (cp : Config → M (List Str)) (self : Downloader.Self Config)
+    (paths : List Str) (hcp : cp self.config = Except.ok paths)
+    (hfiles : (paths.flatMap (namesOf glob ex)).map FileArg.path = us.map (·.1))
+    (es : List (Line × Line)) (hscan : allTlesSources false (us.map (·.2)) = .ok es)
+    (hes : ∀ ab ∈ es, ∃ url, gu (FileArg.io (sio (merged ab))) = Except.ok ([url], FnRef._dummy_open_stringio) ∧
+      uo url FnRef._dummy_open_stringio = Except.ok (stringIOLines2 ab.1 ab.2) ∧
+      AsciiAll (stringIOLines2 ab.1 ab.2) ∧ ∀ l ∈ stringIOLines2 ab.1 ab.2, '\n' ∉ Text.strip l) :
+    Downloader.read_tle_files (SATELLITES := sat) (config_read_tle_files_paths := cp)
+        (decode_ := fun (l : Line) => (Except.ok l : M Str)) (epoch_of_year_and_day := ep) (float_ := fl)
+        (get_first_tle := _get_first_tle (uri_open := uo) (SATELLITES := sat) (decode_ := fun (l : Line) => (Except.ok l : M Str)))
+        (get_uris_and_open_func := gu) (glob_glob := glob) (int_ := it) (io_StringIO := sio) (os_path_exists := ex)
+        (uri_open := uo) self =
+      es.mapM fun ab => afterRead ep fl it (FileArg.io (sio (merged ab))) (reread ab) := by
+  rw [read_tle_files_eq, hcp]
+  simp only [ok_bind, hfiles]
+  exact parse_tles_reread uo sat FnRef.open_py hsat us hus gu ep fl it sio es hscan hes
+
+/-- **`read_tles_from_mmam_xml_files(paths)` (C10).**  Every collected file `f` holds the pairs `psOf f` (at least one, no
+    line breaks) and each pair's stream is read back as the model says: the reader returns, file by file and pair by pair,
+    what the model's `xmlBulk (psOf f)` re-reads (then `_checksum`, `_parse_tle`) — or the first exception -/
+theorem read_xml_pairs (uo : FileArg IO → FnRef → M (Iter Line)) (sat : Dict Str Str) (hsat : dictGet? sat [] = none)
+    (gu : FileArg IO → M (List (FileArg IO) × FnRef)) (ep : Str → F → M T) (fl : Str → M F) (it : Str → M Int)
+    (sio : Str → IO) (glob : Str → List Str) (ex : Str → Bool) (rx : Str → M Str) (paths : List Str)
+    (psOf : Str → List (Line × Line))
+    (hfile : ∀ f ∈ paths.flatMap (namesOf glob ex), psOf f ≠ [] ∧ (∀ p ∈ psOf f, '\n' ∉ p.1 ∧ '\n' ∉ p.2) ∧
+      rx f = Except.ok (Py.join ['\n'] ((psOf f).flatMap fun p => [p.1, p.2])) ∧
+      ∀ ab ∈ psOf f, ∃ url, gu (FileArg.io (sio (merged ab))) = Except.ok ([url], FnRef._dummy_open_stringio) ∧
+        uo url FnRef._dummy_open_stringio = Except.ok (stringIOLines2 ab.1 ab.2) ∧
+        AsciiAll (stringIOLines2 ab.1 ab.2) ∧ ∀ l ∈ stringIOLines2 ab.1 ab.2, '\n' ∉ Text.strip l) :
+    read_tles_from_mmam_xml_files (epoch_of_year_and_day := ep) (float_ := fl)
+        (get_first_tle := _get_first_tle (uri_open := uo) (SATELLITES := sat) (decode_ := fun (l : Line) => (Except.ok l : M Str)))
+        (get_uris_and_open_func := gu) (glob_glob := glob) (group_chunks_2 := chunks2) (int_ := it) (io_StringIO := sio)
+        (os_path_exists := ex) (read_tle_from_mmam_xml_file := rx) paths =
+      ((paths.flatMap (namesOf glob ex)).mapM (fun f =>
+          (psOf f).mapM fun ab => afterRead ep fl it (FileArg.io (sio (merged ab))) (reread ab)) >>= fun yss =>
+        Except.ok yss.flatten) := by
+  rw [read_xml_eq]
+  congr 1
+  apply mapM_congr
+  intro f hf
+  obtain ⟨h1, h2, h3, h4⟩ := hfile f hf
+  rw [xmlFile_pairs rx _ f (psOf f) h1 h2 h3]
+  apply mapM_congr
+  intro ab hab
+  obtain ⟨url, g1, g2, g3, g4⟩ := h4 ab hab
+  exact initEntry_reread uo sat hsat gu ep fl it sio ab url g1 g2 g3 g4
+
 end PV.Equiv.TranslatedBulk
